@@ -386,7 +386,7 @@ class OutQ(FakeQ):
         self.unser = []
         self.env_reprs = {}
         self.last_exc = None
-        self.notes = []
+        self.failed = {}          # "job,i" -> exception raised by the first READY put
 
     def put(self, obj):
         n = self.n
@@ -423,8 +423,21 @@ class OutQ(FakeQ):
             self.env_reprs[str(n)] = repr(exc)
             if kind == pool_mod.READY:
                 self.unser.append([payload[0], payload[1]])
+                self.failed.setdefault(key, exc)
             raise
         self.received.append(pickle_loads(bytes(data)))
+
+    def finish_oracle(self):
+        """a failed READY put that the worker did not answer with a second put: the traceback
+        of the failure is still needed by the model (it predicts the encoding-error record)"""
+        for key, exc in self.failed.items():
+            o = self.oracle.setdefault(key, {})
+            if 'ptb' not in o:
+                fr = frames_of(exc.__traceback__)
+                while fr and fr[0][1] != 'workloop':
+                    fr = fr[1:]
+                o['ptb'] = rle_of(fr, self.T)
+                o['ptext'] = 999
 
     def describe(self):
         out = []
@@ -465,6 +478,7 @@ def run_wl(c):
         ending = ['end']
     except BaseException as exc:       # noqa
         ending = ['crash', type(exc).__name__]
+    outq.finish_oracle()
     return dict(reclimit=RECLIMIT_AT_IMPORT, dmf=einfo_mod.DEFAULT_MAX_FRAMES, msgs=outq.describe(),
                 ending=ending, oracle=outq.oracle, unser=outq.unser, env_reprs=outq.env_reprs,
                 strs=T.strs, nput=outq.n)
